@@ -156,7 +156,7 @@ func checkC06(w *World, r *Report) {
 		consequence: "a fixed price bid lands in a batch auction (no remainder to subtract from) or vice versa"})
 	fixed := func(c *caseRule) { c.vals = append(c.vals, bidTypeValuation(1)) }
 	runGuard(w, r, tm, guardSpec{rule: "FP-ACCEPT", id: "PlaceBid:price=start-price", root: place, common: fixed, commit: commit, commitTxt: "the Bid record write",
-		what: "a fixed price bid is recorded only at the auction's start price",
+		what:  "a fixed price bid is recorded only at the auction's start price",
 		cases: eqCases("bid price", "StartPrice", func(t *Term) bool { return fieldOfParam(t, "Price") }, func(t *Term) bool { return fieldBase(t, "StartPrice") != nil }),
 		atoms: []string{"pair0"}, consequence: "coins are sold at a price other than the fixed one"})
 	var dc []guardCase
@@ -184,7 +184,9 @@ func checkC06(w *World, r *Report) {
 
 	// ---------------------------------------------------------------- FP-NO-REWRITE
 	fpBlock := newCase(w, commit)
-	fpBlock.enums = []enumFix{{name: "atype", val: 1, match: func(t *Term, v ssa.Value) bool { return isNamed(v.Type(), typesPath, "AuctionType") && isField(t, "Type") }}}
+	fpBlock.enums = []enumFix{{name: "atype", val: 1, match: func(t *Term, v ssa.Value) bool {
+		return isNamed(v.Type(), typesPath, "AuctionType") && isField(t, "Type")
+	}}}
 	fpBlock.vals = append(fpBlock.vals, func(x *Explorer, fr *Frame, v ssa.Value) AV {
 		if ta, ok := v.(*ssa.TypeAssert); ok && ta.CommaOk {
 			return Bool(isNamed(ta.AssertedType, typesPath, "FixedPriceAuction"))
